@@ -26,10 +26,14 @@ SPECS = {
 
 
 def predict_case(case):
-    name, si, seed = case
+    name, si, seed = case[:3]
     spec = dict(SPECS[name][si], random_state=seed, max_iter=4) if name != "Kauri" else dict(SPECS[name][si], random_state=seed)
     spec = dict(spec)
     n, d = 5, 3
+    if len(case) > 3 and case[3] == "square":       # coinciding sizes: as many features as training samples (and as query points)
+        d = 5
+        if "feature_mask" in spec or "groups" in spec:
+            return {"v": [], "stats": {"evals": 0}}
     Xtr = seams.tiny_data(n, d, seed + 40)
     Xnew = seams.tiny_data(5, d, seed + 41) * 1.5
     Xbig = seams.tiny_data(8, d, seed + 42) * 1.2        # more rows than the training set
@@ -119,6 +123,7 @@ def predict_case(case):
 def explorers(tier, seed):
     seeds = [seed, seed + 1, seed + 2] if tier == "thorough" else [seed]
     cases = [(name, si, s) for name in M.INDUCTIVE for si in range(len(SPECS[name])) for s in seeds]
+    cases += [(name, si, s, "square") for name in M.INDUCTIVE for si in range(len(SPECS[name])) for s in seeds]
     return [Explorer("subsets_and_permutations", "props.c18", "predict_case", cases, chunk=1, floor=10,
                      rule="15 inductive estimators x fitted states x ALL 31 non-empty subsets and ALL 120 permutations of 5 new points and of the 5 training "
                           "points (labels exact, probabilities 1e-12), copies/views/Fortran layouts, predict(train)==labels_; non-trivial = state predicting >=2 clusters")]
